@@ -1,6 +1,6 @@
 """C05 -- critical failure aborts at once."""
 
-from . import runrules, shutrules
+from . import runrules, shutrules, common
 
 
 def check(ctx, rep):
@@ -16,3 +16,4 @@ def check(ctx, rep):
     runrules.exit_discipline(ctx, rep, "R05.3", "R05.3", "R05.3", causes=('critical',))
     runrules.tidy_shape(ctx, rep, "R05.4")
     shutrules.cancellation_edges(ctx, rep, "R05.5")
+    common.no_handover_on_critical_failure(ctx, rep, "R05.6")
